@@ -128,12 +128,46 @@ func numIs(v any, want int) bool {
 	return err == nil && f == float64(want)
 }
 
+// short keeps what matters of a command's output: logrus info lines are dropped so
+// that the cause of a crash (first lines of a panic / fatal) is not cut away.
 func short(b []byte) string {
-	s := string(b)
-	if len(s) > 1200 {
-		s = s[:500] + "\n…\n" + s[len(s)-600:]
+	var keep []string
+	for _, l := range strings.Split(string(b), "\n") {
+		if !strings.Contains(l, "level=info") {
+			keep = append(keep, l)
+		}
+	}
+	s := strings.Join(keep, "\n")
+	if len(s) > 3000 {
+		s = s[:2200] + "\n…\n" + s[len(s)-700:]
 	}
 	return s
+}
+
+// exhausted recognises a process that died because the machine refused it a
+// thread or memory (the sandbox is shared): that says nothing about the tree.
+func exhausted(stderr []byte) bool {
+	s := string(stderr)
+	for _, sig := range []string{"failed to create new OS thread", "out of memory", "cannot allocate memory", "Resource temporarily unavailable", "resource temporarily unavailable", "pthread_create failed"} {
+		if strings.Contains(s, sig) {
+			return true
+		}
+	}
+	return false
+}
+
+// runCmd runs one command; ok=false means the run is inconclusive (kill timer or resource exhaustion).
+func runCmd(name string, args []string) (run.Result, bool) {
+	res := run.Cmd(run.Opt{}, name, args...)
+	if res.TimedOut {
+		evid.Class("timeout_inconclusive", 1)
+		return res, false
+	}
+	if res.Exit != 0 && exhausted(res.Stderr) {
+		evid.Class("resource_exhaustion_inconclusive", 1)
+		return res, false
+	}
+	return res, true
 }
 
 func describe(args []string) string { return strings.Join(args, " ") }
@@ -189,9 +223,8 @@ func checkCLI(c cliCase) error {
 			args = append(args, "--require-rank", r)
 		}
 		args = append(args, in)
-		res := run.Cmd(run.Opt{}, "obigrep", args...)
-		if res.TimedOut {
-			evid.Class("timeout_inconclusive", 1)
+		res, conclusive := runCmd("obigrep", args)
+		if !conclusive {
 			continue
 		}
 		cmd := "obigrep " + describe(args[2:len(args)-1])
@@ -247,11 +280,9 @@ func checkCLI(c cliCase) error {
 			args = append(args, "--with-taxon-at-rank", r)
 		}
 		args = append(args, in)
-		res := run.Cmd(run.Opt{}, "obiannotate", args...)
+		res, conclusive := runCmd("obiannotate", args)
 		cmd := "obiannotate " + describe(args[2:len(args)-1])
-		if res.TimedOut {
-			evid.Class("timeout_inconclusive", 1)
-		} else {
+		if conclusive {
 			if res.Exit != 0 {
 				return fmt.Errorf("%s exits %d on a well-formed dump and input\nstderr: %s", cmd, res.Exit, short(res.Stderr))
 			}
@@ -297,10 +328,9 @@ func checkCLI(c cliCase) error {
 	// ---------------- obiannotate --add-lca-in
 	if c.LCASlot != "" {
 		args := append(append([]string(nil), common...), "--add-lca-in", c.LCASlot, inLCA)
-		res := run.Cmd(run.Opt{}, "obiannotate", args...)
+		res, conclusive := runCmd("obiannotate", args)
 		cmd := "obiannotate " + describe(args[2:len(args)-1])
-		if res.TimedOut {
-			evid.Class("timeout_inconclusive", 1)
+		if !conclusive {
 			return nil
 		}
 		if res.Exit != 0 {
